@@ -38,7 +38,9 @@ struct ref {
   int rc, off, count;
   uint64_t hash;
 };
-static struct ref *REF; /* [nprog][NMASK][NMODE], MAP_SHARED */
+static struct ref *REF; /* [nprog][NMASK][NMODE][internal 0/1], MAP_SHARED */
+
+#define RIDX(p, m, mode, internal) ((((p)*NMASK + (m)) * NMODE + (mode)) * 2 + ((internal) ? 1 : 0))
 
 static uint64_t fnv(const uint8_t *b, long n) {
   uint64_t h = 1469598103934665603ULL;
@@ -75,7 +77,7 @@ static void one(int p, int m, int mode, int internal, uint8_t *buf,
   out->rc = rc;
   out->off = asm_get_offset(al);
   out->count = count;
-  out->hash = (rc == 0 && out->off >= 0 && out->off <= BUFSZ)
+  out->hash = (rc == 0 && out->off >= 0 && (internal || out->off <= BUFSZ))
                   ? fnv(asm_get_code(al), out->off)
                   : 0;
   if (yields && (rand_r(rs) & 3) == 0)
@@ -104,7 +106,7 @@ static void *worker(void *arg) {
     int internal = (rand_r(&rs) & 3) == 0;
     struct ref got;
     one(p, m, mode, internal, buf, &got, &rs, 1);
-    struct ref *w = &REF[(p * NMASK + m) * NMODE + mode];
+    struct ref *w = &REF[RIDX(p, m, mode, internal)];
     n++;
     if (got.rc != w->rc || got.off != w->off || got.count != w->count ||
         got.hash != w->hash) {
@@ -160,7 +162,7 @@ static void *cold_worker(void *arg) {
   for (int it = 0; it < 3; it++) {
     struct ref got;
     one(p, m, mode, it == 1, buf, &got, &rs, 0);
-    struct ref *w = &REF[(p * NMASK + m) * NMODE + mode];
+    struct ref *w = &REF[RIDX(p, m, mode, it == 1)];
     n++;
     if (got.rc != w->rc || got.off != w->off || got.count != w->count || got.hash != w->hash) {
       mm++;
@@ -257,7 +259,7 @@ int main(int argc, char **argv) {
   seed0 = (unsigned)atoi(argv[4]);
   stagger_us = argc > 5 ? atoi(argv[5]) : 0;
   /* stderr of the library (diagnostics of rejected lines) is noise here */
-  size_t sz = sizeof(struct ref) * (size_t)nprog * NMASK * NMODE;
+  size_t sz = sizeof(struct ref) * (size_t)nprog * NMASK * NMODE * 2;
   REF = mmap(NULL, sz, PROT_READ | PROT_WRITE, MAP_SHARED | MAP_ANONYMOUS, -1, 0);
   fflush(stdout);
   pid_t pid = fork();
@@ -267,7 +269,8 @@ int main(int argc, char **argv) {
     for (int p = 0; p < nprog; p++)
       for (int m = 0; m < NMASK; m++)
         for (int mode = 0; mode < NMODE; mode++)
-          one(p, m, mode, 0, buf, &REF[(p * NMASK + m) * NMODE + mode], &rs, 0);
+          for (int in = 0; in < 2; in++)
+            one(p, m, mode, in, buf, &REF[RIDX(p, m, mode, in)], &rs, 0);
     _exit(0);
   }
   int st = 0;
@@ -292,7 +295,7 @@ int main(int argc, char **argv) {
   for (int i = 0; i < nthreads; i++)
     pthread_join(th[i], NULL);
   long okrefs = 0;
-  for (int i = 0; i < nprog * NMASK * NMODE; i++)
+  for (int i = 0; i < nprog * NMASK * NMODE * 2; i++)
     okrefs += REF[i].rc == 0;
   printf("T %d %d %ld %ld %ld\n", nthreads, iters, ops, mismatches, okrefs);
   return 0;
